@@ -62,6 +62,7 @@ impl Prop for C12 {
             controllers: 1,
             tree: TreeDesc::default(),
             plain488: false,
+            no_mav: false,
         };
         let mut t = base_trace("C12", seed, run, "history", cfg);
         // swarm: producer / consumer rates
